@@ -179,6 +179,8 @@ structure St where
   next : Nat := 1                          -- next ledger serial
   nsess : Nat := 0                         -- sessions created so far
   freed : Bool := false
+  nown : Nat := 0                          -- client sessions PROPER (coap_new_client_session: context->sessions) alive; their
+                                           -- coap_session_t objects are among `ctxObjs` (see `St.newOwned`)
   deriving Repr
 
 def COAP_DEFAULT_SESSION_TIMEOUT : Nat := 300
@@ -326,6 +328,20 @@ def St.clientFree (st : St) (sid : Nat) : St :=
 def St.releaseHolder (st : St) (h : Holder) : St := (st.dropHolder h).clientFree h.sid
 
 def St.releaseHolders (st : St) (hs : List Holder) : St := hs.foldl St.releaseHolder st
+
+/-- `coap_new_client_session(ctx, NULL, server, proto)` on THIS context (round R12d, lifetime only):
+    coap_session_create_client → coap_make_session(type = CLIENT, endpoint = NULL), own socket (own ephemeral local
+    port: its (remote, local, proto) triple is in no endpoint's table and equals no other session's),
+    `SESSIONS_ADD(ctx->sessions, session)` — never in an endpoint table, one session per call also to the same peer,
+    NO SERVER_SESSION_NEW event.  The application keeps the reference it is returned (and may take more with
+    coap_session_reference) and — in this alphabet — releases none of them: the session belongs to the context until
+    `coap_free_context_lkd`, whose loop `SESSIONS_ITER_SAFE(context->sessions, sp, rtmp) { if (sp->ref > 1) sp->ref = 1;
+    coap_session_release_lkd(sp); }` (AFTER fix a610d3d) frees it whatever the application's count — no
+    SERVER_SESSION_DEL event.  M: a ledger object owned by the context (`ctxObjs`: freed by the teardown with the
+    context), counted in `nown`; the session is outside `sessions` (the peer ⇀ session map of the endpoints' tables). -/
+def St.newOwned (st : St) : St :=
+  { st with ctxObjs := st.ctxObjs ++ [st.next], ledger := st.ledger ++ [.alloc st.next], next := st.next + 1,
+            nown := st.nown + 1 }
 
 /-- `coap_make_session` + SESSIONS_ADD + COAP_EVENT_SERVER_SESSION_NEW -/
 def St.newSession (st : St) (p : Peer) : St :=
@@ -528,6 +544,8 @@ inductive Event where
   | ioStale (d : Nat)        -- coap_io_prepare_epoll(ctx, now) with a `now` the application read `d` ticks ago
   | setMaxIdle (n : Nat)
   | setTimeout (n : Nat)
+  | ownClient (extra : Nat)  -- application: coap_new_client_session() on this context, then `extra` coap_session_reference()s;
+                             -- it keeps all of them until coap_free_context()
   | freeContext
   deriving DecidableEq, Repr
 
@@ -869,6 +887,7 @@ def St.step (st : St) (e : Event) : St × Outcome :=
   | .ioStale d => (st.prepareIoAt (st.now - d), .ok)
   | .setMaxIdle n => ({ st with maxIdle := n }, .ok)
   | .setTimeout n => ({ st with timeout := n }, .ok)
+  | .ownClient _ => (st.newOwned, .ok)
   | .freeContext =>
     -- coap_free_context_lkd: resources (observers), send queue, async, endpoints (sessions), context
     -- (each of the three is a coap_session_release_lkd: a client session whose last holder goes here is freed here)
@@ -876,6 +895,7 @@ def St.step (st : St) (e : Event) : St × Outcome :=
     let st2 := st1.releaseHolders (st1.holders.filter fun h => isNode h.kind)
     let st3 := st2.releaseHolders (st2.holders.filter fun h => isAsync h.kind)
     let st4 := st3.eps.foldl St.freeEndpoint st3
+    -- … endpoints (sessions), the client sessions of context->sessions (ledger objects among `ctxObjs`), context
     ({ (st4.freeObjs st4.ctxObjs) with ctxObjs := [], resAlive := [], freed := true }, .ok)
 
 /-- a fresh server context: the context object, its endpoints and resources are ledger objects 1..n -/
